@@ -22,6 +22,7 @@ def run_items(items):
     sys.stdout = devnull
     try:
         from miasmx.arch.ia32_arch import x86mnemo
+        import miasmx.core.parse_ad
         sys.path[:] = keep_path        # ply/yacc.py may leave sys.path clobbered (finding recorded under C12)
         from miasmx.tools import emul_helper
         from miasmx.tools.modint import uint32
